@@ -1224,6 +1224,17 @@ func FromV3Parameter(ref *openapi3.ParameterRef, components *openapi3.Components
 	}
 	if schemaRef := parameter.Schema; schemaRef != nil {
 		schemaRefV2, _ := FromV3SchemaRef(schemaRef, components)
+		if schemaRefV2 == nil && schemaRef.Value != nil {
+			// a string / binary schema is a file upload only in a form: here it is an ordinary string parameter
+			plain := *schemaRef.Value
+			plain.Format = ""
+			if schemaRefV2, _ = FromV3SchemaRef(&openapi3.SchemaRef{Value: &plain}, components); schemaRefV2 != nil && schemaRefV2.Value != nil {
+				schemaRefV2.Value.Format = schemaRef.Value.Format
+			}
+		}
+		if schemaRefV2 == nil {
+			return nil, fmt.Errorf("parameter %q: schema cannot be expressed in OpenAPI 2", parameter.Name)
+		}
 		if ref := schemaRefV2.Ref; ref != "" {
 			result.Schema = &openapi2.SchemaRef{Ref: FromV3Ref(ref)}
 			return result, nil
